@@ -33,6 +33,9 @@ def clist(items):
     return "[" + "; ".join(items) + "]"
 
 
+# pl15: see expr(); part of the trusted base
+THREADING_STUBS = {"Event": "SimEvent", "Thread": "SimThread"}
+
 BINOPS = {ast.Add: "OAdd", ast.Sub: "OSub", ast.Mult: "OMul", ast.FloorDiv: "OFloorDiv",
           ast.Mod: "OMod", ast.LShift: "OShl", ast.RShift: "OShr", ast.BitAnd: "OBitAnd",
           ast.BitOr: "OBitOr", ast.BitXor: "OBitXor", ast.Div: "ODiv"}
@@ -84,6 +87,16 @@ def expr(e):
     if isinstance(e, ast.Name):
         return "(EName %s)" % cstr(e.id)
     if isinstance(e, ast.Attribute):
+        # --- BEGIN pl15: TRUSTED MAPPING for nxslib/thread.py -------------------------------------------
+        # `threading.Event` -> the class SimEvent, `threading.Thread` -> the class SimThread of
+        # tools/harness/prelude_py.py (translated like the rest of the program; under CPython the
+        # correspondence group rebinds `nxslib.thread.threading` to a namespace holding the very same
+        # classes).  Any other attribute of the module `threading` is refused (fail-closed).
+        if isinstance(e.value, ast.Name) and e.value.id == "threading":
+            if e.attr in THREADING_STUBS:
+                return "(EName %s)" % cstr(THREADING_STUBS[e.attr])
+            raise Unsupported("threading." + e.attr)
+        # --- END pl15 ----------------------------------------------------------------------------------
         return "(EAttr %s %s)" % (expr(e.value), cstr(e.attr))
     if isinstance(e, ast.Starred):
         return "(EStar %s)" % expr(e.value)
@@ -537,7 +550,9 @@ ONLY = {"comm.py": {"CommHandler": [
         "ch_divider", "channels_write"]}}
 
 MODULES = ["proto/iframe.py", "proto/serialframe.py", "dev.py", "proto/iparse.py", "proto/parse.py",
-           "proto/iparserecv.py", "proto/parserecv.py", "intf/iintf.py", "comm.py", "nxscope.py", "$prelude"]
+           "proto/iparserecv.py", "proto/parserecv.py", "intf/iintf.py", "comm.py", "nxscope.py",
+           "thread.py",      # pl15: ThreadCommon, whole class (threading.Event/Thread -> SimEvent/SimThread, see expr())
+           "$prelude"]
 
 
 def crc_table():
